@@ -361,6 +361,23 @@ impl BlobLog {
         }
     }
 
+    /// Replace the contents of this log with a snapshot.
+    pub fn replace_with(&self, snapshot: BlobLogSnapshot) {
+        let fresh = Self::restore(snapshot);
+        *self.active.lock() = fresh.active.into_inner();
+        *self.sealed.write() = fresh.sealed.into_inner();
+        *self.index.write() = fresh.index.into_inner();
+        self.garbage.lock().clear();
+        self.next_segment_id.store(
+            fresh.next_segment_id.load(Ordering::Relaxed),
+            Ordering::Relaxed,
+        );
+        self.total_bytes
+            .store(fresh.total_bytes.load(Ordering::Relaxed), Ordering::Relaxed);
+        self.chunk_count
+            .store(fresh.chunk_count.load(Ordering::Relaxed), Ordering::Relaxed);
+    }
+
     /// Restore from a snapshot.
     #[must_use]
     pub fn restore(snapshot: BlobLogSnapshot) -> Self {
